@@ -370,6 +370,15 @@ example : (specStep (abs exHalted.regs ⟨fun _ => 0, true, 0x1f, 0x04⟩)).2 = 
     Boundary exHalted ∧ Boundary exStopped ∧ FLow exHalted.regs ∧ FLow exStopped.regs := by
   refine ⟨?_, ?_, ?_, ?_, ⟨?_, ?_, ?_⟩, ⟨?_, ?_, ?_⟩, ?_, ?_⟩ <;> decide +kernel
 
+/-- STOP mode as the code has it (and hence the machine): a stopped CPU with IME set still dispatches an
+    enabled request (5 cycles), stays `stopped`, and idles at the vector from then on -/
+example : specTrace 3 (abs exStopped.regs ⟨fun _ => 0, true, 0x1f, 0x10⟩) = [.dispatch 4, .idle, .idle] ∧
+    (specRun 3 (abs exStopped.regs ⟨fun _ => 0, true, 0x1f, 0x10⟩)).1.stopped = true ∧
+    (specRun 3 (abs exStopped.regs ⟨fun _ => 0, true, 0x1f, 0x10⟩)).1.pc = 0x0060 ∧
+    (cycles Tables.gen 7 exStopped (⟨fun _ => 0, true, 0x1f, 0x10⟩ : Flat)).1.regs.pc = 0x0060 ∧
+    (cycles Tables.gen 7 exStopped (⟨fun _ => 0, true, 0x1f, 0x10⟩ : Flat)).1.regs.stopped = true := by
+  decide +kernel
+
 /-- the hypothesis of `c01_undefined_stops`: 0xD3 at PC is an `undefined` step, and the model exits -/
 example : Boundary Cpu.init ∧ (specStep (abs Cpu.init.regs exUndefined)).2.1 = .undefined ∧
     (cycle Tables.gen Cpu.init exUndefined).1.regs.exited = true := by
